@@ -232,6 +232,10 @@ def make_o(chunk, nchunks):
         T = H.types_mod
         cols = ["i64", "f64", "s", "b", "i64b", "f64b", "sb", "bb", "g", "d", "dt", "db", "dtb"]
         df = c12.frames().select(cols).with_columns(f64=pl.Series([0.5, None, -0.25]), f64b=pl.Series([0.75, 1.0, None]), h=pl.Series([0, 1, 2]))  # h: unique key (total window / output order)
+        # three more rows: negative and mixed-sign operands (no zero divisors), equal operands
+        more = df.head(3).with_columns(i64=pl.Series([-7, -8, 5]), i64b=pl.Series([-3, 3, 5]), f64=pl.Series([2.5, -1.5, 0.75]), f64b=pl.Series([-0.5, 2.0, 0.75]), s=pl.Series(["q", "", "a"]), sb=pl.Series(["a", "b", "a"]),
+                                       b=pl.Series([False, True, None]), bb=pl.Series([None, False, True]), g=pl.Series([2, 3, 3]), h=pl.Series([3, 4, 5]))
+        df = pl.concat([df, more])
         eng = sqa.create_engine("sqlite://")
         df.write_database("t", eng)
         tabs = (pdt.Table(df, name="t"), pdt.Table("t", pdt.SqlAlchemy(eng)))
@@ -348,7 +352,7 @@ def obligations(tier):  # noqa: F811
                                   bounded=f"one column-hiding step >> every step V of the alphabet >> with / without alias(keep_col_refs=True) >> 3 uses of the hidden column; input `{kind}`"))
     for ch in range(8):
         obs.append(Obligation(f"C01/O/operator_sweep/{ch}", "O", "every operator x accepted signature in a one-verb pipeline: Polars vs SQLite, row by row", make_o(ch, 8), functions=fns[:2] + [H.fn_info(H.polars_backend.compile_col_expr), H.fn_info(H.sql_backend.SqlImpl.compile_col_expr)],
-                              bounded="all operators x signatures over 7 sample types (columns, positional literals, an untyped None; arity <= 3) x 2 column choices (aggregates: grouped / ungrouped / as window with and without partition / with filter=; window functions: with and without partition_by) on one 3-row table; non-finite results compared as NULL"))
+                              bounded="all operators x signatures over 7 sample types (columns, positional literals, an untyped None; arity <= 3) x 2 column choices (aggregates: grouped / ungrouped / as window with and without partition / with filter=; window functions: with and without partition_by) on one 6-row table (nulls, negative and mixed-sign operands); non-finite results compared as NULL"))
     for kind in ("mixed", "empty", "single", "tall"):
         for i, cx in enumerate(ctxs):
             for tl, tail in tails:
